@@ -34,12 +34,12 @@ type engine struct {
 	// compiledFunctionsRefs counts the CompileModule calls per entry of compiledFunctions which have not been matched
 	// by DeleteCompiledModule yet: modules with the same ID (same binary and settings) share one entry. Guarded by mutex.
 	compiledFunctionsRefs map[wasm.ModuleID]int
-	mux               sync.RWMutex
+	mux                   sync.RWMutex
 }
 
 func NewEngine(_ context.Context, enabledFeatures api.CoreFeatures, _ filecache.Cache) wasm.Engine {
 	return &engine{
-		enabledFeatures:   enabledFeatures,
+		enabledFeatures:       enabledFeatures,
 		compiledFunctions:     map[wasm.ModuleID][]compiledFunction{},
 		compiledFunctionsRefs: map[wasm.ModuleID]int{},
 	}
